@@ -115,7 +115,93 @@ def retvar(src):
     return out, len(edits)
 
 
-FN = dict(hoist=hoist, retvar=retvar)[mode]
+def kwargs(src):
+    """calls of same-module functions / same-class methods with only positional arguments get keyword arguments"""
+    tree = ast.parse(src)
+    lines = src.split("\n")
+    mod_funcs = {n.name: n for n in tree.body if isinstance(n, (ast.FunctionDef, ast.AsyncFunctionDef))}
+    edits = []
+    def simple(fn, drop_self):
+        a = fn.args
+        if a.vararg or a.kwarg or a.posonlyargs or fn.decorator_list:
+            return None
+        ps = [x.arg for x in a.args]
+        return ps[1:] if drop_self else ps
+    for cls in [None] + [n for n in tree.body if isinstance(n, ast.ClassDef)]:
+        methods = {n.name: n for n in cls.body if isinstance(n, (ast.FunctionDef, ast.AsyncFunctionDef))} if cls else {}
+        scope = cls if cls else tree
+        for c in ast.walk(scope):
+            if not isinstance(c, ast.Call) or c.keywords or not c.args or any(isinstance(x, ast.Starred) for x in c.args):
+                continue
+            ps = None
+            if isinstance(c.func, ast.Name) and c.func.id in mod_funcs:
+                ps = simple(mod_funcs[c.func.id], False)
+            elif cls and isinstance(c.func, ast.Attribute) and isinstance(c.func.value, ast.Name) and c.func.value.id == "self" and c.func.attr in methods:
+                ps = simple(methods[c.func.attr], True)
+            if ps is None or len(c.args) > len(ps):
+                continue
+            for i, a in enumerate(c.args):
+                edits.append((a.lineno, _char(lines, a.lineno, a.col_offset), ps[i] + "="))
+    if not edits:
+        return src, 0
+    for lineno, col, txt in sorted(set(edits), reverse=True):
+        ln = lines[lineno - 1]
+        lines[lineno - 1] = ln[:col] + txt + ln[col:]
+    out = "\n".join(lines)
+    ast.parse(out)
+    return out, len(set(edits))
+
+
+def ifswap(src):
+    """`if c: A else: B` (no elif, both arms present, single-line test) becomes `if not (c): B else: A`"""
+    tree = ast.parse(src)
+    lines = src.split("\n")
+    edits = []
+    par = {c: p for p in ast.walk(tree) for c in ast.iter_child_nodes(p)}
+    cands = []
+    for n in ast.walk(tree):
+        if isinstance(n, ast.If) and n.orelse and not (len(n.orelse) == 1 and isinstance(n.orelse[0], ast.If)) and n.test.lineno == n.test.end_lineno == n.lineno:
+            up = par.get(n)
+            if isinstance(up, ast.If) and n in up.orelse and len(up.orelse) == 1:
+                continue   # this is an elif arm
+            cands.append(n)
+    # only outermost, non-overlapping ifs (line-block swap)
+    cands.sort(key=lambda n: n.lineno)
+    taken, last_end = [], 0
+    for n in cands:
+        if n.lineno > last_end:
+            taken.append(n)
+            last_end = n.end_lineno
+    for n in reversed(taken):
+        body_s, body_e = n.body[0].lineno, n.body[-1].end_lineno
+        else_s, else_e = n.orelse[0].lineno, n.orelse[-1].end_lineno
+        # the `else:` line is between body_e and else_s
+        else_line = next((i for i in range(body_e + 1, else_s) if lines[i - 1].strip().startswith("else")), None)
+        if else_line is None or body_s == n.lineno or else_s == else_line:
+            continue
+        if any(lines[i - 1].strip() == "" or lines[i - 1].lstrip().startswith("#") for i in ()):
+            continue
+        hdr = lines[n.lineno - 1]
+        t0, t1 = _char(lines, n.test.lineno, n.test.col_offset), _char(lines, n.test.end_lineno, n.test.end_col_offset)
+        # decorators/comments between header and body stay with the header
+        new_hdr = hdr[:t0] + "not (" + hdr[t0:t1] + ")" + hdr[t1:]
+        pre_body = lines[n.lineno:body_s - 1]          # comment lines between header and first body stmt
+        body = lines[body_s - 1:body_e]
+        mid = lines[body_e:else_line - 1]               # blank/comment lines before else
+        pre_else = lines[else_line:else_s - 1]
+        els = lines[else_s - 1:else_e]
+        lines[n.lineno - 1:else_e] = [new_hdr] + pre_else + els + mid + [lines[else_line - 1]] + pre_body + body
+    if not taken:
+        return src, 0
+    out = "\n".join(lines)
+    try:
+        ast.parse(out)
+    except SyntaxError:
+        return src, 0
+    return out, len(taken)
+
+
+FN = dict(hoist=hoist, retvar=retvar, kwargs=kwargs, ifswap=ifswap)[mode]
 
 
 def one(rel):
